@@ -11,10 +11,10 @@ Fb(c, m) == [k |-> "fb", c |-> c, m |-> m]
 Other(k) == [k |-> k, c |-> 0, m |-> ""]
 LineSeqs == << <<>>,
                <<Fb(1, "m1")>>,
-               <<Fb(1, "m1"), Other("unknownName"), Fb(1, "m2")>>,
+               <<Fb(1, "m1"), Other("unknownName"), Fb(1, "invalid value for x header: abc: not a number")>>,   \* the message has ": " itself
                <<Other("noColon"), Fb(N, "last"), Other("blank"), Other("noSpace")>>,
                <<Other("blank"), Other("unknownName"), Other("noColon")>>,
-               <<Fb(N, "x"), Fb(1, "y"), Fb(N, "z"), Other("noSpace")>>,
+               <<Fb(N, "x: y"), Fb(1, "y"), Fb(N, "te: trailers header missing"), Other("noSpace")>>,
                <<Other("noColon"), Other("long"), Fb(1, "after-long"), Other("unknownName")>> >>   \* a very long diagnostic line
 LinesOf(s) == LineSeqs[((s.die + s.closeAt + Cardinality({c \in Cases : s.ans[c] = "pass"})) % Len(LineSeqs)) + 1]
 
